@@ -35,6 +35,7 @@ type csCfg struct {
 	Rmu      bool `json:"rmu"`
 	ViaServe bool `json:"viaServe"`
 	KeepHij  bool `json:"keepHij"`
+	PerIP    bool `json:"perIP"`
 }
 
 type csResp struct {
@@ -63,6 +64,14 @@ type csConn struct {
 	closes    int
 	handedGid uint64 // goroutine of the hijack handler once the connection was handed over
 	foreignIO []string
+	tcpAddr   bool // report an IPv4 TCP remote address (so that MaxConnsPerIP applies)
+}
+
+func (c *csConn) RemoteAddr() net.Addr {
+	if c.tcpAddr {
+		return &net.TCPAddr{IP: net.IPv4(10, 1, 2, 3), Port: 4321}
+	}
+	return c.Conn.RemoteAddr()
 }
 
 func (c *csConn) noteIO(op string) {
@@ -96,7 +105,8 @@ func (c *csConn) Close() error {
 
 type csListener struct {
 	net.Listener
-	got chan *csConn
+	got     chan *csConn
+	tcpAddr bool
 }
 
 func (l *csListener) Accept() (net.Conn, error) {
@@ -104,27 +114,29 @@ func (l *csListener) Accept() (net.Conn, error) {
 	if err != nil {
 		return nil, err
 	}
-	cc := &csConn{Conn: c}
+	cc := &csConn{Conn: c, tcpAddr: l.tcpAddr}
 	l.got <- cc
 	return cc, nil
 }
 
 type csObs struct {
-	mu          sync.Mutex
-	log         []string // merged, mutex-ordered: "w<k>" client about to write batch k; "s:<state>"
-	states      []string
-	disp        []int
-	resps       []csResp
-	srvClosed   bool // client saw EOF
-	keptOpen    bool // weak probe: no EOF within the probe window
-	hijStarted  bool
-	hijWritten  int // bytes the server had written when the hijack handler started
-	cliBefore   int // bytes the client had received before the hijack handler's marker
-	hijRead     []byte
-	hijReturned atomic.Bool
-	problems    []string
-	srvCloses   int      // Close calls the server made on its side of the connection
-	foreignIO   []string // Read/Write calls on the connection by anyone but the hijack handler after hand-over
+	mu           sync.Mutex
+	log          []string // merged, mutex-ordered: "w<k>" client about to write batch k; "s:<state>"
+	states       []string
+	disp         []int
+	resps        []csResp
+	srvClosed    bool // client saw EOF
+	keptOpen     bool // weak probe: no EOF within the probe window
+	hijStarted   bool
+	hijWritten   int // bytes the server had written when the hijack handler started
+	cliBefore    int // bytes the client had received before the hijack handler's marker
+	hijRead      []byte
+	hijReturned  atomic.Bool
+	problems     []string
+	stateConn    net.Conn // connection value of the first ConnState callback
+	connIdentity []string // callbacks that came with another connection value
+	srvCloses    int      // Close calls the server made on its side of the connection
+	foreignIO    []string // Read/Write calls on the connection by anyone but the hijack handler after hand-over
 }
 
 func (o *csObs) addLog(s string) {
@@ -174,8 +186,14 @@ func csRun(b *csBeh) *csObs {
 		ReduceMemoryUsage:  b.Cfg.Rmu,
 		KeepHijackedConns:  b.Cfg.KeepHij,
 		Logger:             csNopLogger{},
+		MaxConnsPerIP:      map[bool]int{false: 0, true: 2}[b.Cfg.PerIP],
 		ConnState: func(c net.Conn, st ConnState) {
 			o.mu.Lock()
+			if len(o.states) == 0 {
+				o.stateConn = c
+			} else if c != o.stateConn {
+				o.connIdentity = append(o.connIdentity, fmt.Sprintf("%s reported on a different net.Conn value (%T) than the first callback (%T)", st, c, o.stateConn))
+			}
 			o.states = append(o.states, st.String())
 			o.log = append(o.log, "s:"+st.String())
 			o.mu.Unlock()
@@ -195,6 +213,10 @@ func csRun(b *csBeh) *csObs {
 			ctx.SetConnectionClose()
 		}
 		ctx.SetBodyString(fmt.Sprintf("body-of-r%d", idx))
+		if r.Kind == "timeout" {
+			ctx.TimeoutError("verif timeout") // the serve loop continues with a fresh ctx
+			return
+		}
 		if r.Kind == "hijack" || r.Kind == "hijacknr" {
 			if r.Kind == "hijacknr" {
 				ctx.HijackSetNoResponse(true)
@@ -228,7 +250,7 @@ func csRun(b *csBeh) *csObs {
 	var ln *fasthttputil.InmemoryListener
 	if b.Cfg.ViaServe {
 		ln = fasthttputil.NewInmemoryListener()
-		wl := &csListener{Listener: ln, got: make(chan *csConn, 1)}
+		wl := &csListener{Listener: ln, got: make(chan *csConn, 1), tcpAddr: b.Cfg.PerIP}
 		serveDone = make(chan struct{})
 		go func() { s.Serve(wl); close(serveDone) }() //nolint:errcheck
 		c, err := ln.Dial()
@@ -240,7 +262,7 @@ func csRun(b *csBeh) *csObs {
 		srvConn.Store(<-wl.got)
 	} else {
 		pc := fasthttputil.NewPipeConns()
-		sc := &csConn{Conn: pc.Conn1()}
+		sc := &csConn{Conn: pc.Conn1(), tcpAddr: b.Cfg.PerIP}
 		srvConn.Store(sc)
 		cli = pc.Conn2()
 		serveDone = make(chan struct{})
@@ -438,7 +460,7 @@ type csNopLogger struct{}
 func (csNopLogger) Printf(string, ...any) {}
 
 func csCfgKey(c csCfg) string {
-	return fmt.Sprintf("dk=%v maxReqs=%d rmu=%v serve=%v keepHij=%v", c.Dk, c.MaxReqs, c.Rmu, c.ViaServe, c.KeepHij)
+	return fmt.Sprintf("dk=%v maxReqs=%d rmu=%v serve=%v keepHij=%v perIP=%v", c.Dk, c.MaxReqs, c.Rmu, c.ViaServe, c.KeepHij, c.PerIP)
 }
 
 func csReqKey(r csReq) string {
